@@ -11,6 +11,7 @@
 -/
 import Golib.Gen.C20
 import Golib.Value.CmpRec
+import Golib.Value.CmpIRCLaws
 
 namespace C20Gen
 open Value Value.IR
@@ -49,7 +50,7 @@ theorem equals_bodies_agree (a b : Value) (hf : isFlat a = true) : genEq a b = s
   by_cases ht : tag a = tag b
   · cases a <;> (try (simp [isFlat] at hf; done)) <;> cases b <;> (try (simp [tag] at ht; done))
     all_goals simp [genEq, lookup, Gen.C20.eqBodies, Ctor.typeName, ctorOf, runEq, evalCond, fieldRel,
-      helperEq, helperCmp, eqFlat, tag, cmpStr_zero]
+      helperEq, helperCmp, eqFlat, tag]
     all_goals first
       | done
       | (simp [beq_eq_decide]; done)
@@ -77,9 +78,234 @@ theorem container_skeletons_agree : Gen.C20.containers = containerSkeletons := b
 /-- util/compare: the slice helpers are the plain loop the model's `lexBy (cmpOf lt)` describes -/
 theorem helper_skeletons_agree : Gen.C20.helpers = helperSkeletons := by decide
 
+
+/-! ### the container methods and the slice helpers, interpreted (CmpIRC.lean)
+
+The loops of `ListValue / MapValue / IntMapValue . Equals / CompareTo` are transcribed statement by
+statement (nil test, type fallback, size test, `for i …` over the receiver's slice with `that.table[i]`
+or `keys := this.Keys()` with `that.table.Get(key)`, plain or comma-ok assertion on the other's entry,
+`if v2 == nil`, the recursive call, the final return) and interpreted with the calls on the children
+as a parameter `rec`.  With `rec := cmpV` the interpretation returns `cmpV` — the model satisfies the
+transcribed equations — and it is the only function that does (`source_determines_cmp / _eq`). -/
+
+/-- the transcribed `CompareTo` of a container type; `rec` stands for the calls on the children -/
+def genContCmp (rec : Value → Value → Int) (a b : Value) : Option Int :=
+  (lookup Gen.C20.contCmp (ctorOf a).typeName).bind (fun cc => runContCmp cc rec a b)
+
+def genContEq (rec : Value → Value → Bool) (a b : Value) : Option Bool :=
+  (lookup Gen.C20.contEq (ctorOf a).typeName).bind (fun ce => runContEq ce rec a b)
+
+/-- list / map / int map against any value: the interpreted source of `CompareTo`, with the model
+    for the recursive calls, returns what the model returns (type fallback, size difference, the walk
+    along the receiver, 1 for a key the other map lacks, first non-zero child result, 0) -/
+theorem container_compareTo_agree (a b : Value) (hf : isFlat a = false) :
+    genContCmp cmpV a b = some (cmpV a b) := by
+  by_cases ht : tag a = tag b
+  · cases a <;> (try (simp [isFlat] at hf; done)) <;> cases b <;> (try (simp [tag] at ht; done))
+    case list.list xs ys =>
+      rw [cmpV_list]
+      by_cases hl : xs.length = ys.length
+      · simpa [genContCmp, lookup, Gen.C20.contCmp, Ctor.typeName, ctorOf, runContCmp, tag, hl] using runIdx_cmp_std 1 xs ys hl
+      · simp [genContCmp, lookup, Gen.C20.contCmp, Ctor.typeName, ctorOf, runContCmp, tag, hl]
+    case map.map xs ys =>
+      rw [cmpV_map]
+      by_cases hl : xs.length = ys.length
+      · simpa [genContCmp, lookup, Gen.C20.contCmp, Ctor.typeName, ctorOf, runContCmp, tag, hl] using runKeys_cmp_std xs ys
+      · simp [genContCmp, lookup, Gen.C20.contCmp, Ctor.typeName, ctorOf, runContCmp, tag, hl]
+    case imap.imap xs ys =>
+      rw [cmpV_imap]
+      by_cases hl : xs.length = ys.length
+      · simpa [genContCmp, lookup, Gen.C20.contCmp, Ctor.typeName, ctorOf, runContCmp, tag, hl] using runKeys_icmp_std xs ys
+      · simp [genContCmp, lookup, Gen.C20.contCmp, Ctor.typeName, ctorOf, runContCmp, tag, hl]
+  · rw [cmpV_tag_ne a b ht]
+    cases a <;> (try (simp [isFlat] at hf; done)) <;>
+      simp [genContCmp, lookup, Gen.C20.contCmp, Ctor.typeName, ctorOf, runContCmp, ht]
+
+/-- … and of `Equals` -/
+theorem container_equals_agree (a b : Value) (hf : isFlat a = false) :
+    genContEq eqV a b = some (eqV a b) := by
+  by_cases ht : tag a = tag b
+  · cases a <;> (try (simp [isFlat] at hf; done)) <;> cases b <;> (try (simp [tag] at ht; done))
+    case list.list xs ys =>
+      rw [eqV_list]
+      by_cases hl : xs.length = ys.length
+      · simpa [genContEq, lookup, Gen.C20.contEq, Ctor.typeName, ctorOf, runContEq, tag, hl] using runIdx_eq_std false xs ys hl
+      · simp [genContEq, lookup, Gen.C20.contEq, Ctor.typeName, ctorOf, runContEq, tag, hl]
+    case map.map xs ys =>
+      rw [eqV_map]
+      by_cases hl : xs.length = ys.length
+      · simpa [genContEq, lookup, Gen.C20.contEq, Ctor.typeName, ctorOf, runContEq, tag, hl] using runKeys_eq_std xs ys
+      · simp [genContEq, lookup, Gen.C20.contEq, Ctor.typeName, ctorOf, runContEq, tag, hl]
+    case imap.imap xs ys =>
+      rw [eqV_imap]
+      by_cases hl : xs.length = ys.length
+      · simpa [genContEq, lookup, Gen.C20.contEq, Ctor.typeName, ctorOf, runContEq, tag, hl] using runKeys_ieq_std xs ys
+      · simp [genContEq, lookup, Gen.C20.contEq, Ctor.typeName, ctorOf, runContEq, tag, hl]
+  · have he : eqV a b = false := by
+      cases a <;> (try (simp [isFlat] at hf; done)) <;> cases b <;> first | exact absurd rfl ht | simp [eqV]
+    rw [he]
+    cases a <;> (try (simp [isFlat] at hf; done)) <;>
+      simp [genContEq, lookup, Gen.C20.contEq, Ctor.typeName, ctorOf, runContEq, ht]
+
+/-- one unfolding of the whole transcribed `CompareTo` (all twenty types) -/
+def genStepCmp (rec : Value → Value → Int) (a b : Value) : Option Int :=
+  if isFlat a then genCmp a b else genContCmp rec a b
+
+def genStepEq (rec : Value → Value → Bool) (a b : Value) : Option Bool :=
+  if isFlat a then genEq a b else genContEq rec a b
+
+/-- the model satisfies the equations read off the source, for every pair of values of every type -/
+theorem model_satisfies_source (a b : Value) :
+    genStepCmp cmpV a b = some (cmpV a b) ∧ genStepEq eqV a b = some (eqV a b) := by
+  cases hf : isFlat a
+  · simp [genStepCmp, genStepEq, hf, container_compareTo_agree a b hf, container_equals_agree a b hf]
+  · simp [genStepCmp, genStepEq, hf, compareTo_bodies_agree a b hf, equals_bodies_agree a b hf]
+
+theorem genContCmp_congr (f g : Value → Value → Int) (a b : Value)
+    (h : ∀ x ∈ children a, ∀ w, f x w = g x w) : genContCmp f a b = genContCmp g a b := by
+  unfold genContCmp
+  cases lookup Gen.C20.contCmp (ctorOf a).typeName with
+  | none => rfl
+  | some cc => simp [Option.bind, runContCmp_congr cc f g a b h]
+
+theorem genContEq_congr (f g : Value → Value → Bool) (a b : Value)
+    (h : ∀ x ∈ children a, ∀ w, f x w = g x w) : genContEq f a b = genContEq g a b := by
+  unfold genContEq
+  cases lookup Gen.C20.contEq (ctorOf a).typeName with
+  | none => rfl
+  | some ce => simp [Option.bind, runContEq_congr ce f g a b h]
+
+/-- … and it is the only function that does: whatever satisfies the transcribed `CompareTo`
+    (terminating on every pair, i.e. never panicking) is `cmpV`.  Nesting depth is unbounded. -/
+theorem source_determines_cmp (f : Value → Value → Int)
+    (h : ∀ a b, genStepCmp f a b = some (f a b)) : ∀ a b, f a b = cmpV a b := by
+  intro a
+  refine value_ind (fun a => ∀ b, f a b = cmpV a b) ?_ ?_ ?_ ?_ a
+  · intro a hf b
+    have h1 := h a b
+    simp only [genStepCmp, hf, if_true, compareTo_bodies_agree a b hf] at h1
+    exact (Option.some.inj h1).symm
+  · intro xs ih b
+    have h1 := h (.list xs) b
+    have hf : isFlat (.list xs) = false := rfl
+    simp only [genStepCmp, hf, Bool.false_eq_true, if_false] at h1
+    rw [genContCmp_congr f cmpV (.list xs) b (fun x hx w => ih x (by simpa [children] using hx) w),
+      container_compareTo_agree _ b hf] at h1
+    exact (Option.some.inj h1).symm
+  · intro kvs ih b
+    have h1 := h (.map kvs) b
+    have hf : isFlat (.map kvs) = false := rfl
+    simp only [genStepCmp, hf, Bool.false_eq_true, if_false] at h1
+    rw [genContCmp_congr f cmpV (.map kvs) b (fun x hx w => by
+        simp only [children, List.mem_map] at hx; obtain ⟨p, hp, rfl⟩ := hx; exact ih p hp w),
+      container_compareTo_agree _ b hf] at h1
+    exact (Option.some.inj h1).symm
+  · intro kvs ih b
+    have h1 := h (.imap kvs) b
+    have hf : isFlat (.imap kvs) = false := rfl
+    simp only [genStepCmp, hf, Bool.false_eq_true, if_false] at h1
+    rw [genContCmp_congr f cmpV (.imap kvs) b (fun x hx w => by
+        simp only [children, List.mem_map] at hx; obtain ⟨p, hp, rfl⟩ := hx; exact ih p hp w),
+      container_compareTo_agree _ b hf] at h1
+    exact (Option.some.inj h1).symm
+
+theorem source_determines_eq (f : Value → Value → Bool)
+    (h : ∀ a b, genStepEq f a b = some (f a b)) : ∀ a b, f a b = eqV a b := by
+  intro a
+  refine value_ind (fun a => ∀ b, f a b = eqV a b) ?_ ?_ ?_ ?_ a
+  · intro a hf b
+    have h1 := h a b
+    simp only [genStepEq, hf, if_true, equals_bodies_agree a b hf] at h1
+    exact (Option.some.inj h1).symm
+  · intro xs ih b
+    have h1 := h (.list xs) b
+    have hf : isFlat (.list xs) = false := rfl
+    simp only [genStepEq, hf, Bool.false_eq_true, if_false] at h1
+    rw [genContEq_congr f eqV (.list xs) b (fun x hx w => ih x (by simpa [children] using hx) w),
+      container_equals_agree _ b hf] at h1
+    exact (Option.some.inj h1).symm
+  · intro kvs ih b
+    have h1 := h (.map kvs) b
+    have hf : isFlat (.map kvs) = false := rfl
+    simp only [genStepEq, hf, Bool.false_eq_true, if_false] at h1
+    rw [genContEq_congr f eqV (.map kvs) b (fun x hx w => by
+        simp only [children, List.mem_map] at hx; obtain ⟨p, hp, rfl⟩ := hx; exact ih p hp w),
+      container_equals_agree _ b hf] at h1
+    exact (Option.some.inj h1).symm
+  · intro kvs ih b
+    have h1 := h (.imap kvs) b
+    have hf : isFlat (.imap kvs) = false := rfl
+    simp only [genStepEq, hf, Bool.false_eq_true, if_false] at h1
+    rw [genContEq_congr f eqV (.imap kvs) b (fun x hx w => by
+        simp only [children, List.mem_map] at hx; obtain ⟨p, hp, rfl⟩ := hx; exact ih p hp w),
+      container_equals_agree _ b hf] at h1
+    exact (Option.some.inj h1).symm
+
+/-- the other map's entry is read with the comma-ok form in all four map methods (D04 repaired);
+    a nil argument gives 0 / false -/
+theorem container_assertions :
+    Gen.C20.contCmp.all (fun e => e.2.nilRet == 0 && e.2.fallback == "intSub" && e.2.sizeCheck &&
+      (e.2.iter == "index" || e.2.thatCommaOk)) = true ∧
+    Gen.C20.contEq.all (fun e => e.2.guard && e.2.sizeCheck && (e.2.iter == "index" || e.2.thatCommaOk)) = true := by
+  decide
+
+/-! ### util/compare, interpreted: the six numeric slice helpers are `cmpSeq`, `CompareToStrings`
+    is `cmpStrs`, every `EqualX` is `CompareToX(…) == 0` — for all element orders and all inputs -/
+
+theorem numeric_helpers_are_cmpSeq {α : Type} (lt : α → α → Bool) (c : α → α → Int) (xs ys : List α) :
+    ∀ h ∈ ["CompareToBytes", "CompareToShorts", "CompareToInts", "CompareToLongs", "CompareToFloats", "CompareToDoubles"],
+      runHelperCmp Gen.C20.helperBodies h lt c xs ys = some (cmpSeq lt xs ys) := by
+  intro h hm
+  simp only [List.mem_cons, List.not_mem_nil, or_false] at hm
+  rcases hm with rfl | rfl | rfl | rfl | rfl | rfl <;>
+    simp [runHelperCmp, lookup, Gen.C20.helperBodies, runHLoop_ltgt]
+
+theorem string_helper_is_cmpStrs (lt : Bytes → Bytes → Bool) (xs ys : List Bytes) :
+    runHelperCmp Gen.C20.helperBodies "CompareToStrings" lt cmpStr xs ys = some (cmpStrs xs ys) := by
+  simp [runHelperCmp, lookup, Gen.C20.helperBodies, runHLoop_cmp3, cmpStrs]
+
+theorem equal_helpers_are_zero_tests {α : Type} (lt : α → α → Bool) (c : α → α → Int) (xs ys : List α) :
+    ∀ p ∈ [("EqualBytes", "CompareToBytes"), ("EqualShorts", "CompareToShorts"), ("EqualInts", "CompareToInts"),
+        ("EqualLongs", "CompareToLongs"), ("EqualFloats", "CompareToFloats"), ("EqualDoubles", "CompareToDoubles"),
+        ("EqualStrings", "CompareToStrings")],
+      runHelperEq Gen.C20.helperBodies p.1 lt c xs ys = (runHelperCmp Gen.C20.helperBodies p.2 lt c xs ys).map (· == 0) := by
+  intro p hm
+  simp only [List.mem_cons, List.not_mem_nil, or_false] at hm
+  rcases hm with rfl | rfl | rfl | rfl | rfl | rfl | rfl <;>
+    simp [runHelperEq, lookup, Gen.C20.helperBodies]
+
+/-- wherever the semantics of a flat body calls a helper by name (`helperCmp`, CmpIR.lean), the
+    transcribed body of that helper computes the same on the two payloads -/
+theorem helper_bodies_agree (h f : String) (a b : Value) (r : Int) (hr : helperCmp h f a b = some r) :
+    payloadCmp Gen.C20.helperBodies h a b = some r := by
+  unfold helperCmp at hr
+  split at hr <;> first
+    | (cases hr; done)
+    | (cases hr; simp [payloadCmp, runHelperCmp, lookup, Gen.C20.helperBodies, runHLoop_ltgt, runHLoop_cmp3, cmpStrs])
+
+theorem helper_eq_bodies_agree (h f : String) (a b : Value) (r : Bool) (hr : helperEq h f a b = some r) :
+    payloadEq? Gen.C20.helperBodies h a b = some r := by
+  unfold helperEq at hr
+  split at hr
+  all_goals first
+    | (cases hr; done)
+    | (unfold helperCmp at hr
+       split at hr
+       all_goals first
+        | (cases hr; done)
+        | (rename_i heq; simp at heq; done)
+        | (cases hr; simp [payloadEq?, runHelperEq, runHelperCmp, lookup, Gen.C20.helperBodies, runHLoop_ltgt, runHLoop_cmp3, cmpStrs]))
+
 /-! non-vacuity -/
 example : genCmp (.dec 3) (.dec 5) = some 1 := by decide +kernel
 example : genCmp (.lsum 5 1 0 0) (.lsum 5 2 9 9) = some 1 := by decide +kernel
 example : genEq (.text [1]) (.blob [1]) = some false := by decide +kernel
+example : genContCmp cmpV (.list [.dec 1, .list [.dec 3]]) (.list [.dec 1, .list [.dec 5]]) = some 1 := by decide +kernel
+example : genContCmp cmpV (.map [([97], .null)]) (.map [([98], .null)]) = some 1 := by decide +kernel      -- D04/D08: missing key
+example : genContEq eqV (.imap [(1, .dec 1), (2, .null)]) (.imap [(2, .null), (1, .dec 1)]) = some true := by decide +kernel
+example : genStepCmp cmpV (.list []) (.dec 0) = some 50 := by decide +kernel
+example : payloadCmp Gen.C20.helperBodies "CompareToBytes" (.blob [1, 2]) (.blob [1, 3]) = some (-1) := by decide +kernel
+example : helperCmp "CompareToStrings" "Val" (.at [[1]]) (.at [[1], [2]]) = some (-1) := by decide +kernel
+example : helperEq "EqualInts" "Val" (.ai [1]) (.ai [1]) = some true := by decide +kernel
 
 end C20Gen
